@@ -307,7 +307,32 @@ def gen_lines(tier):
     return L
 
 
-FLOOR = {"quick": dict(facts=230, cg=8, eq=20, lines=18), "thorough": dict(facts=2500, cg=8, eq=20, lines=30)}
+FLOOR = {"quick": dict(facts=230, cg=8, eq=20, lines=18, limb=5), "thorough": dict(facts=2500, cg=8, eq=20, lines=30, limb=5)}
+
+
+def limb_plan(tier):
+    """MULTI-LIMB values of the composite types (limb algebra, DESIGN 2.5b): static_integer<D> with D > 128 is elastic over a
+    multi-limb wide_integer; a + b, a - b (and one product) widen and then operate, so the result's representation is
+    sval(a) op sval(b) modulo 2^(result width), for all limb values"""
+    from vlib import limbalg as la
+    src, plan, k = tc.PRELUDE["clang"], [], 0
+
+    def W(D, L=32):
+        return -(-(D + 1) // L) * L
+    for (Da, Db, ops) in ((200, 200, ("add", "sub")), (150, 200, ("add", "mul")), (129, 140, ("sub",))):
+        A, B = "cnl::static_integer<%d>" % Da, "cnl::static_integer<%d>" % Db
+        for op in ops:
+            sym = {"add": "+", "sub": "-", "mul": "*"}[op]
+            f = "nk%d" % k
+            k += 1
+            src += 'extern "C" auto %s(%s a, %s b) { return a %s b; }\n' % (f, A, B, sym)
+            Wa, Wb = W(Da), W(Db)
+
+            def spec(cx, v, RW, op=op, Wa=Wa, Wb=Wb):
+                a, b = la.sval(cx, v[0], Wa), la.sval(cx, v[1], Wb)
+                return la.pmul(a, b) if op == "mul" else la.padd(a, b, 1 if op == "add" else -1)
+            plan.append(("limb/%s/static_integer<%d>,<%d>" % (op, Da, Db), "static_integer<%d> %s static_integer<%d>" % (Da, sym, Db), f, [("a", Wa, 32), ("b", Wb, 32)], None, spec))
+    return src, plan
 
 
 def run(tier, seed, work):
@@ -401,7 +426,10 @@ def run(tier, seed, work):
     common.floor_check(r, "call-graph chains established", cg_ok, FLOOR[tier]["cg"])
     common.floor_check(r, "EQ chains proved", n["proved"], FLOOR[tier]["eq"])
     common.floor_check(r, "lines decided", lc["proved"] + lc["refuted"], FLOOR[tier]["lines"])
+    lsrc, lplan = limb_plan(tier)
+    lcnt = common.limb_block(r, work, "c11limb", lsrc, lplan, seed, FLOOR[tier]["limb"], "multi-limb static_integer obligations proved")
     r.coverage = {
+        "multi_limb_obligations": len(lplan), "multi_limb_proved": lcnt["proved"], "multi_limb_refuted": lcnt["refuted"], "multi_limb_undecided": lcnt["undecided"],
         "explanation": "Type facts on the composition and its results; must-pass-through of the four layers on the -O0 call graph; IR equivalence of three-operation chains with plain arithmetic; narrowing assignments decided for every source value by the line engine (bounds / signals exactly outside the declared range, rounded value inside). Multi-limb values, rounding direction of / (C08) and chains longer than three operations are not decided.",
         "evaluations": len(F) + len(CG_KERNELS) + len(obs) + len(L), "distinct_nontrivial": nf["proved"] + cg_ok + n["proved"] + lc["proved"] + lc["refuted"],
         "rule": "non-trivial = judged type fact, established call chain, proved EQ chain, decided line",
